@@ -85,6 +85,25 @@ def single_case(draw, mode, wide=False, allow_cg=True):
         k = draw(st.sampled_from([9, 10, 11, 12, 13, 17]))  # wide block operators (one block per detector / per band)
     sub = max(2, 14 // k)
     struct_kinds = ('leaf', 'leaf', 'leaf', 'tuple', 'stokes', 'dict')
+    if k >= 9 and kind != 'row' and draw(st.booleans()):
+        # many blocks of ONE class on ONE input structure whose outputs differ (selections of different lengths, reshapes
+        # to different shapes, axes moved to different places): nothing about one block says anything about the others
+        S1 = St.leaf([2, 3], draw(st.sampled_from(gen.dtypes(mode))))
+        cls_ = draw(st.sampled_from(['index', 'reshape', 'move']))
+        blocks = []
+        for _ in range(k):
+            if cls_ == 'index':
+                m_ = draw(st.integers(1, 3))
+                blocks.append({'k': 'index', 'in': S1, 'idx': [{'a': [draw(st.integers(-2, 1)) for _ in range(m_)]}], 'explicit_out': False,
+                               'unique': None, 'bare': True})
+            elif cls_ == 'reshape':
+                f_ = list(draw(st.sampled_from([[6], [3, 2], [1, 6], [6, 1], [2, 3, 1], [1, 2, 3]])))
+                blocks.append({'k': 'reshape', 'in': S1, 'shape_arg': f_, 'shape': f_})
+            else:
+                a_, b_ = draw(st.sampled_from([(0, 1), (1, 0), (0, -1), (-1, 0), (0, 0)]))
+                blocks.append({'k': 'move', 'in': S1, 'src': [a_], 'dst': [b_]})
+        expr = {'k': 'block', 'kind': kind, 'blocks': _container(draw, blocks)}
+        return {'mode': 'single', 'defs': G.defs, 'expr': expr, 'probe': draw(st.lists(st.integers(0, 1000), min_size=8, max_size=8))}
     if kind == 'col':
         S = draw(gen.structure(mode, cap=sub, kinds=struct_kinds))
         blocks = [gen.operand(draw, G, S, 1) for _ in range(k)]
